@@ -1242,6 +1242,24 @@ def load_corpus():
     return cases
 
 
+def run_script_case(ck, case):
+    """a deterministic reproducer script of corpus/C08 run in a subprocess with and without -O; its own
+    oracle (exit status) judges the real code"""
+    import subprocess
+    path = os.path.join(VERIF, 'corpus', 'C08', case['script'])
+    for opt in ([], ['-O']):
+        p = subprocess.run([sys.executable] + opt + [path], capture_output=True, text=True, timeout=120,
+                           cwd=ck.tmp)
+        ck.case(dict(kind='script', script=case['script'], opt=opt), True,
+                sample=dict(kind='script', script=case['script'], opt=opt, out=p.stdout.strip()[-200:]))
+        ck.count('script:%s:%s' % (case['script'], 'ok' if p.returncode == 0 else 'failed'))
+        if p.returncode != 0:
+            ck.violation('C08:%s:corrupt%s' % (case['script'][:-3].replace('_', '-'), '-under-O' if opt else ''),
+                         '%s %s: %s' % (' '.join(['python'] + opt), case['script'],
+                                        (p.stdout + p.stderr).strip()[-400:]),
+                         dict(kind='script', script=case['script']))
+
+
 def run_case(ck, case, proto_batch):
     kind = case['kind']
     if kind == 'sched':
@@ -1251,6 +1269,8 @@ def run_case(ck, case, proto_batch):
         run_crash_scenario(ck, case['P'], ck.thorough, only_cut=case.get('cut'))
     elif kind == 'fault':
         run_fault_scenario(ck, case['P'], only=case.get('fail_at'))
+    elif kind == 'script':
+        run_script_case(ck, case)
     else:
         raise InfraError('unknown case kind %r' % kind)
 
